@@ -87,7 +87,7 @@ class C11(Oracle):
             for i in nd.all_individuals:
                 self.walk(i, draws, here.get(i.id_number))
 
-    def walk(self, ind, draws, where):
+    def walk(self, ind, draws, where, kinds=("int",)):
         """Walk the customer's records in order, consuming its service-time draws node by node."""
         R = self.R
         iid = ind.id_number
@@ -108,7 +108,7 @@ class C11(Oracle):
         if where is not None and ind.service_start_date is not False and not isinstance(ind.service_start_date, str):
             segs.append((where, "current", ind.service_start_date, None, ind.service_time, ind.service_end_date, None))
         for nid, ty, start, exit_, stime, end, dest in segs:
-            if R.S["servers"][nid - 1]["k"] != "int" or R.S["ps"][nid - 1] or ty in ("baulk", "rejection"):
+            if R.S["servers"][nid - 1]["k"] not in kinds or R.S["ps"][nid - 1] or ty in ("baulk", "rejection"):
                 visit = None
                 continue
             opt = self.option(nid)
@@ -149,7 +149,7 @@ class C11(Oracle):
                 if ty == "service":
                     visit = None
         for (nid, j), d in draws.items():
-            if j == iid and R.S["servers"][nid - 1]["k"] == "int" and not R.S["ps"][nid - 1] and ptr.get(nid, 0) != len(d):
+            if j == iid and R.S["servers"][nid - 1]["k"] in kinds and not R.S["ps"][nid - 1] and ptr.get(nid, 0) != len(d):
                 self.fail("extra-service-sample", "ind %s at node %s: %d samples drawn, %d segments account for them (option %r)" % (iid, nid, len(d), ptr.get(nid, 0), self.option(nid)))
 
     def probe(self):
